@@ -1,7 +1,22 @@
-SOURCE_COMMITS = []
+SOURCE_COMMITS = []  # no guarded hook commits: instrumentation is harness-side only
+FIX_COMMITS = ["72224cf", "5e98ecd", "2300819", "45660fa", "ac83a8e"]
 NOTES = "Runtime monitoring of the real repid code; see DESIGN.md. Verdicts are 'held on the executions produced', never proofs."
 NOT_APPLICABLE = {}
 CHECKS = {
+    "C01": {
+        "level": "fault_enumeration",
+        "technique": "runtime monitoring: lifecycle reference model vs broker-state snapshots after every call of random histories; every call cancelled at every event-loop step",
+        "text": "Random well-behaved histories of broker-API calls run on the real in-memory, Redis and RabbitMQ broker classes (the latter two over an in-memory wire to wire-level fake servers) on a virtual clock; after every call a snapshot of the broker's actual state is compared with a lifecycle model, at the end a drain audit through the public API must return every message exactly once with the right content. Separately each call (enqueue, consume, ack, nack, reject, requeue, finish) is cancelled at every loop step of its execution and the state must be its pre- or post-state and stay recoverable. Fault enumeration over cancellation points is exhaustive per (broker, op, pre-state, latency); histories are sampled.",
+        "note": "Fake Redis/AMQP servers are trusted (rules R1-R7 in DESIGN 3.4); well-behaved clients by construction; findings not repaired are listed in known_findings.json by mechanism.",
+        "ref": "DESIGN.md 5/C01",
+    },
+    "C02": {
+        "level": "exploration",
+        "technique": "runtime monitoring: per-delivery disposition ladder oracle over recorded top-level broker calls of real Worker runs",
+        "text": "A crossed table of ~1400 cells (actor outcome incl. 5 exception types, timeout, conversion failure, dependency failure, six eager responses x result/exception/callback variants; retries 0/1/3; attempt first/middle/last; recurring or not; result storing on/off) is executed through real Workers (6-24 cells concurrently, tasks_limit 1/3/1000, both converters, three brokers); every delivery is paired with the terminal broker calls that follow it and judged against the ladder (exactly one call, the right one, with the right retry/reschedule parameters); sentinel jobs prove the worker keeps processing.",
+        "note": "Virtual time; deliveries cut short by the final stop request are not judged; cron recurrence not reachable (croniter absent).",
+        "ref": "DESIGN.md 5/C02",
+    },
     "C19": {
         "level": "exploration",
         "technique": "runtime monitoring: closed-form oracle over real function calls under an interposed, pinned wall clock",
